@@ -2097,6 +2097,7 @@ def preprocess_file(
     pp_defs: dict = None,
     include_dirs: set = None,
     debug: bool = False,
+    include_stack: tuple = (),
 ):
     # Look for and mark excluded preprocessor paths in file
     # Initial implementation only looks for "if" and "ifndef" statements.
@@ -2239,6 +2240,8 @@ def preprocess_file(
         # not stay on the caller's (server-wide) include path
         include_dirs = set(include_dirs)
         include_dirs.add(os.path.abspath(os.path.dirname(file_path)))
+        if not include_stack:
+            include_stack = (os.path.abspath(file_path),)
     pp_skips = []
     pp_defines = []
     pp_stack = []
@@ -2396,7 +2399,11 @@ def preprocess_file(
                 if os.path.isfile(include_path_tmp):
                     include_path = os.path.abspath(include_path_tmp)
                     break
-            if include_path is not None:
+            if include_path is not None and include_path in include_stack:
+                # Headers that include each other without guards would
+                # otherwise be expanded until the recursion limit, at every level
+                log.debug("%s !!! Circular include skipped (%d)", line.strip(), i + 1)
+            elif include_path is not None:
                 try:
                     include_file = FortranFile(include_path)
                     err_string, _ = include_file.load_from_disk()
@@ -2408,6 +2415,7 @@ def preprocess_file(
                             pp_defs=defs_tmp,
                             include_dirs=include_dirs,
                             debug=debug,
+                            include_stack=include_stack + (include_path,),
                         )
                         log.debug("!!! Completed parsing include file\n")
 
